@@ -32,7 +32,7 @@ ASSUMPTIONS = ["truth is judged only for currently registered listeners and only
                "more than one clock resolution away)",
                "'arrived while registered' = the most recent offer arrived, in script order, after the listener's current registration began",
                "alternation is judged per registration period (a re-registration starts a new history)"]
-FLOORS = {"quick": {"histories": 60000, "exhaustive_core_histories": 50000, "random_histories": 3000, "idle_truth_checks": 2000000,
+FLOORS = {"quick": {"histories": 60000, "exhaustive_core_histories": 50000, "random_histories": 3000, "histories_with_a_crowd_of_other_senders": 150, "idle_truth_checks": 2000000,
                     "alternation_events": 100000, "reboot_order_checks": 2000, "same_iteration_placements": 20000,
                     "deadline_before_placements": 5000, "deadline_after_placements": 5000, "offered_required_checks": 50000,
                     "mesh_scenarios": 100, "mesh_final_checks_watcher": 90, "mesh_alternation_events": 600}}
@@ -45,6 +45,7 @@ SERVICES = {1: (0x1111, 1, 1, 0), 2: (0x1111, 2, 1, 0), 3: (0x2222, 1, 1, 7), 4:
 # same host, other port; one link-local IPv6 address behind two interfaces: keys must use the full socket address
 SOURCES = {"A": ("10.0.5.1", 30490), "B": ("10.0.5.1", 30491), "C": ("fe80::5", 30490, 0, 2), "D": ("fe80::5", 30490, 0, 3)}
 SRC_NAME = {v: k for k, v in SOURCES.items()}
+CROWD_FIND = net.sd_bytes([net.find(0x7777)], 1, reboot=True)
 # registrations: name -> filter tuple (sid, iid, maj, minor) or None for watch-all
 REGS = {"F1": (0x1111, 0xFFFF, 0xFF, 0xFFFFFFFF), "F2": (0x1111, 1, 1, 0xFFFFFFFF), "ALL": None, "F3": (0x2222, 0xFFFF, 1, 7),
         "F4": (0x1111, 0xFFFF, 0xFF, 0),  # any instance, any major, pinned minor
@@ -183,6 +184,11 @@ class Run:
             self.prot.datagram_received(a["data"], SOURCES[a["src"]], a["mc"])
         elif a["kind"] == "lost":
             self.prot.connection_lost(None)
+        elif a["kind"] == "crowd":
+            # a busy segment: very many other nodes are heard (each asks for a service nobody here offers)
+            for i in range(a["n"]):
+                addr = (f"10.7.{i >> 8 & 255}.{i & 255}", 30490) if i % 3 else (f"2001:db8:7::{i + 1:x}", 30490, 0, 0)
+                self.prot.datagram_received(CROWD_FIND, addr, i % 2 == 0)
         elif a["kind"] == "arm":
             if a["reg"] in self.actual and a["reg"] not in self.retired:
                 self.armed.add(a["reg"])
@@ -207,7 +213,7 @@ class Run:
         if f is None:
             d.stop_watch_all_services(self.listeners[reg])
         else:
-            d.stop_watch_service(C.Service(*f), self.listeners[reg])
+            d.stop_watch_service(net.client_filter(C, f), self.listeners[reg])
 
     def _watch(self, reg):
         import someip.config as C
@@ -216,7 +222,7 @@ class Run:
         if f is None:
             self.prot.discovery.watch_all_services(self.listeners[reg])
         else:
-            self.prot.discovery.watch_service(C.Service(*f), self.listeners[reg])
+            self.prot.discovery.watch_service(net.client_filter(C, f), self.listeners[reg])
 
     # ---- idle-point oracle
     def on_idle(self):
@@ -367,7 +373,11 @@ class Builder:
                 #  sender's)
                 o1x = [refwire.ep4("10.0.0.99", 30490, typ=0x24)] if len(self.script) % 4 == 1 else []
                 ep = refwire.ep4(SOURCES[src][0], 3000) if ":" not in SOURCES[src][0] else refwire.ep6(SOURCES[src][0], 3000)
-                ents.append(net.offer(s[0], s[1], s[2], s[3], ttl, o1=o1x + ([ep] if ttl else [])))
+                # the same offer is presented in different ways from message to message: the endpoint in the first or in the
+                # second option run, alone or next to a load-balancing option (what is offered stays the same)
+                how = (len(self.script) // 2) % 3 if ttl else 0
+                o1, o2 = ((o1x + [ep], []), (o1x, [ep]), ([ep], [refwire.opt_loadbal(1, 1)] + o1x))[how] if ttl else (o1x, [])
+                ents.append(net.offer(s[0], s[1], s[2], s[3], ttl, o1=o1, o2=o2))
             a["data"] = net.sd_bytes(ents, sid, reboot=flag)
             # light deadline model (expiries only matter for placement)
             for k in [k for k, d in self.deadlines.items() if d != math.inf and d < t - RES]:
@@ -482,8 +492,16 @@ def random_history(rng):
     hot = (rng.choice("ABCD"), SERVICES[rng.choice((1, 1, 2, 3))], rng.choice((FOREVER, FOREVER, 1, 2, 3)), rng.random() < 0.3) \
         if rng.random() < 0.5 else None
     hot_reg = rng.choice(("ALL", "ALL", "F1", rng.choice(list(REGS))))
-    for _ in range(n):
+    crowd_at = rng.randrange(2, n) if rng.random() < 0.08 else None
+    for step in range(n):
         r = rng.random()
+        if step == crowd_at:
+            # everything known so far, then a crowd of other nodes, then (mostly) one of the known sources again - rebooted
+            if b.add(dict(kind="crowd", n=rng.choice((300, 1100))), rng.choice(("new", "same"))):
+                seq.append(("crowd", "x"))
+            if rng.random() < 0.3:
+                continue
+            r = 0.57
         if r < 0.55:
             if hot and rng.random() < 0.6:
                 a = dict(kind="msg", src=hot[0], mc=hot[3], entries=[(hot[1], hot[2])], reboot=False)
@@ -573,6 +591,8 @@ def run(spec, ctx):
         init, b, seq = random_history(rng)
         nt = judge(ctx, init, b, seq, f"{base}/{i}", dict(kind="random", base=base, index=i), False)
         count_placements(ctx, seq)
+        if any(k == "crowd" for k, _pl in seq):
+            ctx.count("histories_with_a_crowd_of_other_senders")
         ctx.case(("rand", init, seq, tuple(a["kind"] == "msg" and (a["src"], a["mc"], tuple(a["entries"]), bool(a.get("reboot")))
                                             for _t, _r, a in b.script)), nt,
                  sample=dict(initial_registrations=list(init), length=len(seq),
